@@ -279,8 +279,8 @@ type GenOpt struct {
 	AllowKnown bool
 }
 
-var mainTypes = []string{"Ints", "Scalars", "Nulls", "Sers", "Embs", "Defs", "Comp", "Keyed", "StrKey", "UnixU", "Twice"}
-var mapTypes = []string{"Ints", "Scalars", "Keyed", "Comp", "Embs", "Twice"}
+var mainTypes = []string{"Ints", "Scalars", "Nulls", "Sers", "Embs", "Defs", "Comp", "Keyed", "StrKey", "UnixU", "Twice", "Loc", "Loc"}
+var mapTypes = []string{"Ints", "Scalars", "Keyed", "Comp", "Embs", "Twice", "Loc"}
 
 func genInput(r *lib.Rng, id int, g GenOpt) Input {
 	if isGen(g.Type) {
@@ -313,7 +313,7 @@ func genInput(r *lib.Rng, id int, g GenOpt) Input {
 	}
 	if isMap {
 		keyMode = lib.Pick(r, []string{"zero", "zero", "all"})
-		if g.NoRet && !g.AllowKnown && g.Op != "map" {
+		if g.NoRet && !g.AllowKnown && g.Op != "map" && g.Op != "mapptr" {
 			keyMode = "zero" // []map with preset keys and no RETURNING: known finding
 		}
 	}
@@ -351,6 +351,9 @@ func genInput(r *lib.Rng, id int, g GenOpt) Input {
 				if isMap && rec[j].Z == "0" {
 					rec[j] = vAbsent
 				}
+			case f.PK && pk == nil && (f.Kind.K == "int" || f.Kind.K == "uint") && hasStrKey(d):
+				// member of a composite key: few values, so that rows share it
+				rec[j] = vInt(int64(1 + r.Intn(2)))
 			case f.PK && f.Kind.K == "str":
 				rec[j] = vStr(fmt.Sprintf("k%d-%d%s", id, i, lib.Pick(r, []string{"", "'", "é"})))
 			case f.EmbPtr && embNil:
@@ -413,6 +416,15 @@ func nonZero(r *lib.Rng, f *FDesc) Val {
 			return v
 		}
 	}
+}
+
+func hasStrKey(d *Desc) bool {
+	for _, f := range d.Fields {
+		if f.PK && f.Kind.K == "str" {
+			return true
+		}
+	}
+	return false
 }
 
 func hasSer(d *Desc) bool {
